@@ -42,6 +42,7 @@ def value_pool():
     pool = [["i", 0], ["i", 1], ["i", -1], ["i", 2], ["i", -2], ["i", 2**61 - 1], ["b", True], ["b", False]]
     pool += [_f(0.0), _f(-0.0), _f(1.0), _f(-1.0), _f(2.0), _f(0.5), _f(inf), _f(-inf), _f(nan), ["nan_singleton"]]
     pool += [_c(0.0, 0.0), _c(0.0, -0.0), _c(-0.0, 0.0), _c(-0.0, -0.0), _c(1.0, 0.0), _c(1.0, -0.0)]
+    pool += [_c(nan, 1.0), _c(nan, 2.0), _c(3.0, nan), _c(nan, nan), _c(inf, nan), _c(inf, 1.0), _c(-inf, 1.0)]
     for dt in ("float16", "float32", "float64"):
         for x in (0.0, -0.0, 1.0, -1.0, inf, nan):
             pool.append(_np(dt, x))
@@ -49,7 +50,7 @@ def value_pool():
         for x in (0, 1, -1):
             pool.append(_np(dt, x))
     for dt in ("complex64", "complex128"):
-        for x in (0j, complex(0.0, -0.0), complex(-0.0, 0.0), 1 + 0j):
+        for x in (0j, complex(0.0, -0.0), complex(-0.0, 0.0), 1 + 0j, complex(nan, 1.0), complex(nan, 2.0), complex(1.0, nan)):
             pool.append(_np(dt, x))
     pool += [["s", n] for n in NAMED] + [["s", a] for a in ALIASES]
     return pool
@@ -110,6 +111,28 @@ def is_nan_value(v):
     except Exception:
         pass
     return False
+
+
+def same_up_to_nan_payload(a, b):
+    """Same type; every component bit-identical, or NaN in both (whatever the payload)."""
+    import numpy
+
+    def comps(v):
+        if isinstance(v, (complex, numpy.complexfloating)):
+            return [v.real, v.imag]
+        if isinstance(v, (float, numpy.floating)):
+            return [v]
+        return None
+
+    x, y = comps(a), comps(b)
+    if x is None or y is None or len(x) != len(y) or canon_value(a)[0] != canon_value(b)[0]:
+        return False
+    for p, q in zip(x, y):
+        if canon_value(p) == canon_value(q):
+            continue
+        if not (p != p and q != q):
+            return False
+    return True
 
 
 def differ_only_in_sign_of_zero(a, b):
@@ -419,8 +442,8 @@ class Sim:
             return "value-type:%s/%s" % (ca[0], cb[0])
         if differ_only_in_sign_of_zero(a, b):
             return "signed-zero:%s" % ca[0]
-        if is_nan_value(a) and is_nan_value(b):
-            return ""  # NaN payloads: either outcome accepted
+        if same_up_to_nan_payload(a, b):
+            return ""  # NaN payloads: either outcome accepted (component by component for complex values)
         return "value:%s" % ca[0]
 
     def check_equiv(self, cand, got, where):
